@@ -24,6 +24,9 @@ CHECKS = {
  'C06': ('fault_enumeration',
          "Held on the fault sequences enumerated: for each recorded message of a base run a copy is delivered at later unit boundaries of the identical schedule (start_task, on_action_complete incl. sub-workflow results, start_workflow with id), run_action is redelivered with/without losing the original x safe-rerun; oracle: normal form and row counts equal to the duplicate-free run, run-once and accepted-once counters.",
          "runtime monitoring: offline comparison of recorded histories (duplicate-free vs duplicated run) + exactly-once counters over ACTION_RUN / RPC_SEND events under message duplication at every position"),
+ 'C07': ('exploration',
+         "Held on the executions explored: a with-items task over 0..7 items (actions or sub-workflows, one or two collections), concurrency absent / 1..n+1 / expression, per-item success / error / cancel, optional retry, item results held by the harness and delivered in every order (n! for small n) under several transaction orders; invariants evaluated after every commit (per index at most one accepted-or-unfinished child, indexes in range, unfinished children <= concurrency, no completion before every item is accepted) and at completion (state by the statement, published result in item order, empty list succeeds without children).",
+         "runtime monitoring: structural invariants of child-execution rows checked at every commit (quiescent points of the engine's own transactions) + result-order oracle, with harness-controlled completion orders"),
  'C10': ('exploration',
          "Held on the executions explored: pause injected at unit boundaries of generated runs (root or nested execution), everything in flight drained while PAUSED, resume, drain; monitors: no task row inserted while the execution is and stays PAUSED, acknowledged pause => PAUSED (with sub-workflows), normal form equal to the never-paused run on the deterministic fragment.",
          "runtime monitoring: no-insert-while-paused trace monitor + metamorphic equality with the unpaused run under pause injection at every unit boundary"),
